@@ -76,7 +76,8 @@ def step (st : St) (line : String) : St × String :=
     match nat? t, nat? seed, nat? len with
     | some t, some s, some l =>
       let m := pattern s l
-      ({ st with c := st.c.step L (.send t m) }, "ok " ++ toString (packetsOf L t m).length)
+      if st.c.s.dead then (st, "refused") -- the connection was stopped on this side: Send returns false
+      else ({ st with c := st.c.step L (.send t m) }, "ok " ++ toString (packetsOf L t m).length)
     | _, _, _ => (st, "bad-op")
   | ["send-partial", t, seed, len, k] =>
     match nat? t, nat? seed, nat? len, nat? k with
